@@ -12,6 +12,7 @@ from ..harness import Discard, Violation, bt_frame_signature, run_sub
 RULE = (
     "wellformed: grammar-generated backtests (dates x prices x tree x algo stack x cost model x position mode) run to completion, "
     "then every report accessor is called and every recorded number must be finite; non-trivial = at least one trade happened. "
+    "report_order: grammar, fixed-income and maturing-securities backtests (closed positions lying idle) whose report accessors are asked for in a generated order straight after the run: each completes, and weights are finite on every date with a non-zero root value (notional value for fixed-income roots). "
     "builds_agree: the same generated spec run by the interpreted and by the compiled build of the working-tree sources (fresh processes) gives the same histories (1e-9). "
     "illformed_*: one generated family per ill-formed class of the statement; must raise (and where the statement implies refusal, leave state unchanged); "
     "non-trivial = the ill-formed state was actually reached. distinct = distinct spec hashes."
@@ -119,6 +120,90 @@ def case_wellformed(ctx, spec):
     if b.strategy.bankrupt:
         labs.append("bankrupt")
     return {"nontrivial": nt > 0, "labels": labs}
+
+
+# ---- reports asked for in any order, straight after the run ---------------------------------------------------------
+REPORTS = ["weights", "security_weights", "positions", "herfindahl_index", "turnover", "get_weights", "get_security_weights", "get_transactions", "display", "stats", "node_series"]
+
+
+@st.composite
+def report_order_spec(draw):
+    from . import c17, c20
+
+    k = draw(st.integers(0, 5))
+    if k < 2:
+        spec = draw(gen.backtest_spec(max_dates=14))
+    elif k < 4:
+        spec = draw(c17.run_spec())
+    else:
+        # books in which securities mature, are closed and then lie idle for the rest of the run (fixed-income roots half of the time)
+        spec = draw(c20.close_spec())
+        spec = {k_: v for k_, v in spec.items() if k_ not in ("close_dates", "close_last")}
+    spec["report_order"] = draw(st.permutations(REPORTS))
+    return spec
+
+
+def case_report_order(ctx, spec):
+    """the first thing a user does with a finished run is ask for one report - whichever it is, it completes and holds finite numbers
+    wherever it is defined (a weight is defined on every date on which the root's value - notional value for a fixed-income root - is not zero)"""
+    bt = ctx.bt
+    base = {k: v for k, v in spec.items() if k != "report_order"}
+    try:
+        b = run_backtest(bt, base)
+    except Exception as e:
+        raise Discard("run raised (wellformed sub-check's business): %s" % type(e).__name__)
+    s = b.strategy
+    res = None
+    for k, nm in enumerate(spec["report_order"]):
+        try:
+            out = None
+            if nm == "node_series":
+                check_finite(bt, b, base)
+            elif nm in ("weights", "security_weights", "positions", "herfindahl_index", "turnover"):
+                out = getattr(b, nm)
+            else:
+                if res is None:
+                    res = bt.backtest.Result(b)
+                if nm == "display":
+                    with contextlib.redirect_stdout(io.StringIO()):
+                        res.display()
+                elif nm == "stats":
+                    res.stats
+                elif nm == "get_transactions":
+                    if s.securities:
+                        out = res.get_transactions()
+                else:
+                    out = getattr(res, nm)()
+        except Violation:
+            raise
+        except Exception as e:
+            msg = str(e)
+            if any(k_ in msg for k_ in DEP_DISCARD):
+                raise Discard("dependency did not converge")
+            raise Violation("report %s asked for as #%d after the run (order %s) raised %s: %s" % (nm, k, spec["report_order"], type(e).__name__, msg[:200]), signature="report-raises:" + nm)
+        if nm in ("weights", "security_weights", "get_weights", "get_security_weights") and out is not None:
+            basev = np.asarray(s.notional_values if s.fixed_income else s.values, dtype=float)
+            ok_rows = np.abs(basev) > 1e-9
+            arr = np.asarray(out, dtype=float)
+            if arr.size:
+                sub = arr[ok_rows[: arr.shape[0]]]
+                if not np.isfinite(sub).all():
+                    r, c = np.argwhere(~np.isfinite(arr) & ok_rows[: arr.shape[0], None])[0]
+                    raise Violation(
+                        "report %s asked for as #%d after the run (order %s): non-finite entry for %s on %s although the root's %s is %r" % (nm, k, spec["report_order"][: k + 1], out.columns[c], out.index[r], "notional value" if s.fixed_income else "value", basev[r]),
+                        signature="nonfinite-report:" + nm,
+                    )
+        elif nm == "positions" and out is not None and np.asarray(out, dtype=float).size and not np.isfinite(np.asarray(out, dtype=float)).all():
+            raise Violation("report positions asked for as #%d has non-finite entries" % k, signature="nonfinite-report:positions")
+    idle = False
+    for m in s.members:
+        if isinstance(m, bt.core.SecurityBase):
+            pos = np.asarray(m.positions, dtype=float)
+            nz = np.nonzero(pos)[0]
+            if len(nz) and nz[-1] < len(pos) - 2:
+                idle = True
+    labs = ["fi_root" if s.fixed_income else "mv_root", "first=" + spec["report_order"][0]] + (["security_closed_and_idle"] if idle else [])
+    return {"nontrivial": idle and n_trades(bt, b) > 0, "labels": labs}
 
 
 # ---- ill-formed classes ---------------------------------------------------------------------------
@@ -397,8 +482,8 @@ def case_builds_agree(ctx, spec):
     return {"nontrivial": True, "labels": gen.spec_labels(spec) + (["bit_identical"] if not d else ["last_bits_differ"])}
 
 
-SUBS = {"wellformed": case_wellformed, "illformed": case_illformed, "builds_agree": case_builds_agree}
-STRATS = {"wellformed": gen.backtest_spec, "illformed": ill_spec, "builds_agree": lambda: gen.backtest_spec(max_dates=10)}
+SUBS = {"wellformed": case_wellformed, "illformed": case_illformed, "builds_agree": case_builds_agree, "report_order": case_report_order}
+STRATS = {"wellformed": gen.backtest_spec, "illformed": ill_spec, "builds_agree": lambda: gen.backtest_spec(max_dates=10), "report_order": report_order_spec}
 for _k in ILL:
     STRATS["ill_" + _k] = (lambda kk: (lambda: ill_spec(klass=kk)))(_k)
     SUBS["ill_" + _k] = case_illformed
@@ -406,6 +491,7 @@ for _k in ILL:
 
 def shard(ctx):
     run_sub(ctx, "wellformed", gen.backtest_spec(), lambda s: case_wellformed(ctx, s), ctx.n(3000, 40000))
+    run_sub(ctx, "report_order", report_order_spec(), lambda s: case_report_order(ctx, s), ctx.n(1200, 16000))
     for k in ILL:
         run_sub(ctx, "ill_" + k, ill_spec(klass=k), lambda s: case_illformed(ctx, s), ctx.n(160, 3000))
     if ctx.kind == "py":
